@@ -98,6 +98,18 @@ def reader_view(container):
             for x in (s, o):
                 if isinstance(x, RDFLiteral):
                     hints[tkey(term(x))] = lit_hint(x)
-        graphs.append({"id": gid, "types": types, "all": allt})
+        # the reader also issues pattern queries (subject, prov:qualifiedDelegation / qualifiedAssociation / asInBundle, ?o) and
+        # keeps the last answer: their order is the store's index order, not the iteration order of the context
+        pat = []
+        for pl in ("qualifiedDelegation", "qualifiedAssociation", "asInBundle"):
+            pu = URIRef("http://www.w3.org/ns/prov#" + pl)
+            subs = []
+            for s in ctx.subjects(pu, None):
+                if isinstance(s, URIRef) and s not in subs:
+                    subs.append(s)
+            for s in subs:
+                for s2, p2, o2 in ctx.triples((s, pu, None)):
+                    pat.append([term(s2), term(p2), term(o2)])
+        graphs.append({"id": gid, "types": types, "all": allt, "pat": pat})
     ns = [[p, str(u)] for p, u in container.namespaces()]
     return {"ns": ns, "graphs": graphs, "hints": list(hints.values())}
